@@ -251,6 +251,8 @@ func (g *pgen) program() *pnode {
 	depth := 1 + r.Choose(4, "depth")
 	if g.allowGo {
 		switch r.Choose(6, "root") {
+		case 3:
+			return &pnode{op: "mapstream", n: []int{2, 1, 3, -1}[r.Choose(4, "ms-par")], m: []int{2, 0, 1, 4}[r.Choose(4, "ms-buf")], fn: r.Choose(3, "mapf"), kids: []*pnode{g.node(depth - 1)}}
 		case 4:
 			return &pnode{op: "batch", n: 1 + r.Choose(4, "batch-n"), m: 10 * (1 + r.Choose(4, "batch-wait")), kids: []*pnode{g.node(depth - 1)}}
 		case 5:
